@@ -60,6 +60,11 @@
      (`InLoop.bl_needed_for_sync`).  So the clause as a whole is
      FALSE of the model and of the code in exactly the class of the recorded finding
      `[escape joins an ill-formed sequence]`, and true everywhere else.
+  Histories (Proofs/Utf8InputHist.lean): `C17_history_consumed_valid` — any interleaving of `next_value`,
+  `next_datum`, iterator steps, `expect_value`, `expect_datum`, `expect_end` on one parser over a slice or stream:
+  while every call so far succeeded, the bytes consumed so far are valid UTF-8 (side conditions `TV` and, Emacs
+  Lisp strings, `NoNumEsc`, both inherited by every suffix of the input); `C17_history_ill_formed_prefix_fails`
+  is the rule of the direct oracle for histories.
 -/
 import LexprModel.Proofs.Utf8Valid
 import LexprModel.Proofs.Utf8Parse
@@ -69,6 +74,7 @@ import LexprModel.Proofs.Utf8InputAll
 import LexprModel.Proofs.Utf8InputAllDatum
 import LexprModel.Proofs.Utf8InputAllOpts
 import LexprModel.Proofs.Utf8InputAllOptsDatum
+import LexprModel.Proofs.Utf8InputHist
 namespace Lexpr
 namespace Parse
 
@@ -190,6 +196,37 @@ theorem C17_ill_formed_input_never_accepted_datum {cfg : Cfg} {mode : Mode} {byt
     (hr6 : cfg.opts.string = .r6rs) (hm : mode ≠ .str) (hno : ∀ b ∈ bytes, b ≠ 59) :
     Utf8.valid bytes = true :=
   InAll.C17_whole_input_valid_datum_no_comment h hr6 hm hno
+
+/-- **input clause over call histories, every option set** (Proofs/Utf8InputHist): whatever kinds of calls
+    (`next_value`, `next_datum`, the three iterators, `expect_value`, `expect_datum`, `expect_end`) are made in
+    whatever order on one parser over a slice or stream, as long as every call so far succeeded
+    (`runAccepted … = some S'`) the bytes `w` consumed so far are valid UTF-8.  Side conditions as for single
+    calls: trivia well-formed (`TV`: only comments may hide ill-formed bytes), `NoNumEsc` under the Emacs Lisp
+    string syntax (necessary: the recorded finding). -/
+theorem C17_history_consumed_valid {cfg : Cfg} {mode : Mode} {bytes w : List UInt8} {faulty : Bool}
+    {ops : List Op} {S' : St}
+    (h : InAllOpts.runAccepted cfg ops (initSt mode bytes faulty) = some S')
+    (hm : mode ≠ .str) (htv : InAll.TV bytes)
+    (hnb : cfg.opts.string = .elisp → InAllOpts.NoNumEsc bytes)
+    (hw : bytes = w ++ S'.rd.rest) : Utf8.valid w = true :=
+  InAllOpts.C17_history_consumed_valid h hm htv hnb hw
+
+/-- the oracle's rule for histories: if the input up to some point is ill-formed (no `;`, no numeric escape),
+    no all-successful history of calls gets the parser to that point -/
+theorem C17_history_ill_formed_prefix_fails {cfg : Cfg} {mode : Mode} {bytes w rest : List UInt8}
+    {faulty : Bool} {ops : List Op}
+    (hm : mode ≠ .str) (hno : ∀ b ∈ bytes, b ≠ 59) (hnb : InAllOpts.NoNumEsc bytes)
+    (hw : bytes = w ++ rest) (hbad : Utf8.valid w = false) :
+    ∀ S', InAllOpts.runAccepted cfg ops (initSt mode bytes faulty) = some S' → S'.rd.rest ≠ rest :=
+  InAllOpts.C17_history_ill_formed_prefix_fails hm hno hnb hw hbad
+
+/-- `runAccepted` describes `runHistory`: all `ops.length` items were produced and each is a success -/
+theorem C17_runAccepted_items {cfg : Cfg} (ops : List Op) {s s' : St}
+    (h : InAllOpts.runAccepted cfg ops s = some s') :
+    (runHistory cfg ops s).length = ops.length ∧
+      ∀ it ∈ runHistory cfg ops s, InAllOpts.Item.accepted it = true :=
+  InAllOpts.runAccepted_some_items ops h
+
 
 example : Utf8.valid [0xCE, 0xBB, 40, 120, 41] = true ∧ Utf8.valid [0xCE] = false ∧ Utf8.incomplete [0xCE] = true ∧
     Utf8.valid [0xC0, 0x80] = false ∧ Utf8.valid [0xED, 0xA0, 0x80] = false := by decide
